@@ -128,6 +128,14 @@ class CRender:
             return f"{X(e[1])}[{X(e[2])}]"
         raise ValueError(k)
 
+    def init(self, T, e, env):
+        r = self.ty.resolve(T)
+        if e[0] == "list":
+            return "{" + ", ".join(self.init(r[1], x, env) for x in e[1]) + "}"
+        if e[0] == "named":
+            return "{" + ", ".join(f".{f} = {self.init(dict(r[1])[f], x, env)}" for f, x in e[1]) + "}"
+        return f"({self.ctype(T)}){self.ex(e, env)}"
+
     def st(self, s, env, ret, out, ind):
         pad = "  " * ind
         k = s[0]
@@ -138,7 +146,7 @@ class CRender:
             if s[3] is None:
                 out.append(f"{pad}{self.decl(s[1], s[2])};")
             else:
-                out.append(f"{pad}{self.decl(s[1], s[2])} = ({self.ctype(s[1])}){X(s[3])};")
+                out.append(f"{pad}{self.decl(s[1], s[2])} = {self.init(s[1], s[3], env)};")
         elif k == "assign":
             T = self.ctype(self.typeof(s[2], env))
             lv = X(s[2])
@@ -195,7 +203,7 @@ class CRender:
         for T, name, e in self.p.get("consts", ()):
             out.append(f"#define {name} (({self.ctype(T)}){self.ex(e, {})})")
         for T, name, init in self.p.get("globals", ()):
-            out.append(f"static {self.decl(T, name)}" + (f" = ({self.ctype(T)}){self.ex(init, {})};" if init is not None else ";"))
+            out.append(f"static {self.decl(T, name)}" + (f" = {self.init(T, init, {})};" if init is not None else ";"))
         for f in self.p["functions"]:
             out.append(f"static {self.ctype(f['ret'])} {f['name']}_(" + ", ".join(self.decl(T, n) for T, n in f["params"]) + ");")
         for f in self.p["functions"]:
@@ -211,6 +219,8 @@ class CRender:
             if init is not None:
                 continue
             r = self.ty.resolve(T)
+            if r[0] == "struct":
+                continue
             if r[0] == "arr":
                 for j in range(r[2]):
                     out.append(f"  {n}[{j}] = ({self.ctype(r[1])})strtoull(argv[k++], 0, 10);")
@@ -227,6 +237,8 @@ class CRender:
             out.append(f"  uint{bits(entry['ret'])}_t r = (uint{bits(entry['ret'])}_t)f_({', '.join(args)}); printf(\"%llu\\n\", (unsigned long long)r);")
         for T, n, _ in self.p.get("globals", ()):
             r = self.ty.resolve(T)
+            if r[0] == "struct":
+                continue
             if r[0] == "arr":
                 for j in range(r[2]):
                     out.append(f"  printf(\"%llu\\n\", (unsigned long long)(uint{bits(r[1])}_t){n}[{j}]);")
@@ -250,6 +262,8 @@ def oracle(prog, ib, gvals, avals):
         if init is not None:
             continue
         r = ty.resolve(T)
+        if r[0] == "struct":
+            continue
         ginit[n] = [term(r[1], next(it)) for _ in range(r[2])] if r[0] == "arr" else term(T, next(it))
     sem = c3sem.C3Sem(prog, ib, init_globals=ginit, max_steps=20000)
     entry = [f for f in prog["functions"] if f["name"] == prog["entry"]][0]
@@ -265,6 +279,8 @@ def oracle(prog, ib, gvals, avals):
     out = ["none" if r is None else str(val(r))]
     for T, n, _ in prog.get("globals", ()):
         v = sem.global_value(n)
+        if v is None:
+            continue
         out += [str(val(x)) for x in v] if isinstance(v, list) else [str(val(v))]
     return out
 
@@ -306,7 +322,7 @@ def main():
             entry = [f for f in p["functions"] if f["name"] == p["entry"]][0]
             gts = []
             for T, n, init in p.get("globals", ()):
-                if init is None:
+                if init is None and ty.resolve(T)[0] != "struct":
                     r = ty.resolve(T)
                     gts += [r[1]] * r[2] if r[0] == "arr" else [T]
             for _ in range(npts):
